@@ -3,3 +3,5 @@ pub mod grouping;
 pub mod c06;
 pub mod c13;
 pub mod c14;
+pub mod c02;
+pub mod c08;
